@@ -69,7 +69,12 @@ def check(prop, tier, seed, replay_path=None, selftest=False, keep=False):
                 kind = "does-not-compile"
             else:
                 kind = "unexpected-names"
-            sig = {"kind": kind, "base": e["base"], "flavour": e["flavour"], "set": e["set"], "syntax": e["syntax"],
+            shorts = [m["short"] for m in e["req"]["msgs"]]
+            lowers = [m["lower"] for m in e["req"]["msgs"]]
+            cause = ""
+            if kind == "duplicate-output-name":
+                cause = "same-short-name" if len(set(shorts)) != len(shorts) else ("case-only" if len(set(lowers)) != len(lowers) else "other")
+            sig = {"kind": kind, "cause": cause, "base": e["base"], "flavour": e["flavour"], "set": e["set"], "syntax": e["syntax"],
                    "features": ",".join(f for f in e["features"] if f not in ("proto2", "proto3", "atomic"))}
             verdicts.fail(sig, {"property": prop, "event": e}, "%d-%s-%s-%s" % (n, e["base"], e["flavour"], e["set"]))
         rc = verdicts.finish()
